@@ -41,6 +41,8 @@ SymCp(sym) ==
     [] sym = "amp" -> 38          \* written &amp;
     [] sym = "nbspE" -> 160       \* written &nbsp;
     [] sym = "spE" -> 32          \* written &#32;
+    [] sym = "lfE" -> 10          \* written &#10; - a line break all the same
+    [] sym = "tabE" -> 9          \* written &#9;
     [] sym = "lt" -> 60           \* written &lt;
     [] sym = "bs" -> 92           \* a backslash: JSX strings and text have no escape sequences
     [] sym = "apos" -> 39         \* written &apos;
